@@ -805,6 +805,11 @@ WS_FIXED = [
      ("aB", "class aB (aC)\nfb : int4\nproc RunB\n fa = fb + fc\nendproc\n"),
      ("aC", "class aC (aB)\nfc : int4\nproc RunC\n fa = fb + fc\n self.\nendproc\n")],
     [("aA", "class aA (AA)\nfa : int4\nproc Run\n fa = 1\nendproc\n")],
+    # body-less methods WITH parameters (forward / external) between methods with bodies: their parameters are nobody's locals
+    [("aExt", "class aExt (aExtBase)\nconst cDerived = 1\nHandle : int4\nproc Open(Handle : int4, Mode : int4) external 'Dll.Open'\n"
+              "func Find(Key : int4) return int4 forward\nproc Work(Count : int4)\n var total : int4\n total = Count + cBase\n \n self.Handle = total\nendproc\n"
+              "func Find(Key : int4) return int4\n return Key\nendfunc\n"),
+     ("aExtBase", "class aExtBase\nconst cBase = 2\nproc Close(Handle : int4) forward\nproc Ping\n x = 1\nendproc\n")],
     [("aA", "class aA (aB)\nuses aU\nproc Run\n x = cU + fa + fb\nendproc\n"),
      ("aB", "class aB (aA)\nfb : int4\n"),
      ("aU", "class aU (aV)\nconst cU = 1\n"),
@@ -846,6 +851,54 @@ def ws_cases(ctx):
 WS_POS = {}
 
 
+_RE_METH = _re.compile(r"^\s*(proc|procedure|func|function)\b", _re.I)
+_RE_END = _re.compile(r"^\s*(endproc|endfunc|end)\s*$", _re.I)
+_RE_ID = _re.compile(r"[A-Za-z_][A-Za-z0-9_]*")
+
+
+def _ws_plain_allowed(files, lines, l, col):
+    """upper-cased names a plain completion at (l, col) may propose, or None when the position is not strictly inside a
+    method body / is after a dot / the text is not laid out one declaration per line"""
+    if l >= len(lines):
+        return None
+    start = None
+    for i in range(l, -1, -1):
+        if i < l and _RE_END.match(lines[i]):
+            return None
+        if _RE_METH.match(lines[i]):
+            start = i
+            break
+    if start is None or start == l:
+        return None
+    end = None
+    for i in range(l, len(lines)):
+        if _RE_END.match(lines[i]):
+            end = i
+            break
+        if i > l and _RE_METH.match(lines[i]):
+            return None
+    if end is None or end == l:
+        return None
+    line = lines[l]
+    j = min(col, len(line))
+    while j > 0 and (line[j - 1].isalnum() or line[j - 1] == "_"):
+        j -= 1
+    if _re.search(r"\.\s*$", line[:j]) or "." in line[j:col + 1]:
+        return None
+    allowed = set(x.upper() for x in _RE_ID.findall(lines[start]))
+    for i in range(start + 1, end):
+        for kw in ("var", "const"):
+            m = _re.match(r"^\s*%s\s+([A-Za-z_][A-Za-z0-9_]*)" % kw, lines[i], _re.I)
+            if m:
+                allowed.add(m.group(1).upper())
+    for (_, t) in files:
+        for ln in t.split("\n"):
+            m = _re.match(r"^\s*const\s+([A-Za-z_][A-Za-z0-9_]*)", ln, _re.I)
+            if m:
+                allowed.add(m.group(1).upper())
+    return allowed
+
+
 def ws_oracle(case, obs):
     """on the implementation's answers alone: every definition link's selection range, sliced from the TARGET file's
        text, is the identifier under the cursor ignoring case (`self` excepted; options of `refTo [..]` excepted); the
@@ -874,6 +927,16 @@ def ws_oracle(case, obs):
                 up = [x.upper() for x in labs]
                 if len(set(up)) != len(up):
                     return "file %s answer %d: completion labels not distinct ignoring case: %r" % (stem, k, labs)
+            if c not in ("-", "") and poss is not None and fi < len(poss) and k < len(poss[fi]):
+                # C11's second clause, as a necessary condition read off the TEXT: in a method body, not after a dot, every
+                # proposal is a parameter / local of THAT method or a constant declared somewhere in the workspace
+                l, col = poss[fi][k]
+                allowed = _ws_plain_allowed(files, lines, l, col)
+                if allowed is not None:
+                    extra = [x for x in labs if x.upper() not in allowed]
+                    if extra:
+                        return ("file %s at %d:%d: completion in a method body proposes %r: neither a parameter / local of the "
+                                "enclosing method nor a constant of the workspace" % (stem, l, col, extra))
             if d not in ("-", "") and poss is not None and fi < len(poss) and k < len(poss[fi]):
                 l, col = poss[fi][k]
                 ident = dt_ident_at(lines, l, col)
